@@ -12,9 +12,17 @@ pub struct Violation {
 }
 
 static COUNT: AtomicUsize = AtomicUsize::new(0);
+/// Set once a panic escaped from crate code: the state of that execution is undefined from then
+/// on, so what the other monitors see afterwards is not reported (only counted).
+pub static POISONED: std::sync::atomic::AtomicBool = std::sync::atomic::AtomicBool::new(false);
+pub static SUPPRESSED: AtomicUsize = AtomicUsize::new(0);
 static VIOLS: Mutex<Vec<Violation>> = Mutex::new(Vec::new());
 
 pub fn report(prop: &str, kind: &str, detail: String) {
+    if POISONED.load(Ordering::Relaxed) && kind != "crate-panic" {
+        SUPPRESSED.fetch_add(1, Ordering::Relaxed);
+        return;
+    }
     COUNT.fetch_add(1, Ordering::Relaxed);
     let mut v = VIOLS.lock().unwrap_or_else(|e| e.into_inner());
     if v.len() < 200 {
